@@ -367,6 +367,12 @@ func runC12(e *Env) error {
 		e.Res.Count(hxJSON(c), c.K >= 1, "edit:"+strings.SplitN(c.Edit, "@", 2)[0], "class:"+tag, "res:"+impl.Attempts[1].Res)
 		e.Res.Sample(map[string]any{"case": c, "impl": impl.Attempts[1].Res}, 6)
 		okI, sig, what := c12Monitor(&c, impl.Attempts)
+		// one Executor kept over the attempts (the file edited in place) behaves like a fresh one per attempt
+		if reuse, ok := runExecImplReuse(ec); ok {
+			if sameR, diffR := sameAttempts(reuse.Attempts, impl.Attempts); !sameR && okI {
+				okI, sig, what = false, "executor-reuse-differs", "an Executor kept over the attempts (the directory edited in place) behaves differently from a fresh one per attempt: "+diffR
+			}
+		}
 		same, diff := sameAttempts(impl.Attempts, model.Attempts)
 		if !same {
 			e.Res.Disagree()
